@@ -250,6 +250,87 @@ def accessor(ctx):
     ctx.sample(sub, {"raster": "2x2, every value assignment as time steps", "backends": ["numpy", "dask (time chunks of 7)"]})
 
 
+def value_dtypes(ctx):
+    """Value rasters of every numeric dtype (do_mean is not restricted by a signature): all zone assignments of a
+    2x2 raster x all words over a four-letter alphabet that spans the whole range of the dtype, first pixel smaller /
+    larger than later ones, nodata at either end of the range."""
+    zm = _zonal()
+    sub = "value_dtypes"
+    P, shape = 4, (2, 2)
+    fams = {
+        "uint8": (255, [255, 0, 200, 7]), "uint16": (65535, [65535, 0, 40000, 7]), "uint32": (0, [0, 1, 4000000000, 9]),
+        "int8": (-128, [-128, 127, -5, 3]), "int32": (-2 ** 31, [-2 ** 31, 2 ** 31 - 1, -7, 5]), "int64": (-9999, [-9999, 2 ** 40, -2 ** 40, 5]),
+        "int16": (-32768, [-32768, 32767, -32767, 11]), "float64": (-9999.0, [-9999.0, 7.5, -3.25, 1e6 + 0.5]),
+    }
+    zone_alphabet = np.array([0, 1, ZND])
+    zidx = sse.word_indices(3, P)
+    for dt, (nd, alphabet) in fams.items():
+        vidx = sse.word_indices(4, P)
+        values = np.asarray(alphabet, dtype=np.float64)[vidx]
+        T = values.shape[0]
+        pixels = np.asarray(alphabet).astype(dt)[vidx].reshape((T,) + shape)
+        valid = vidx != 0
+        for zi in zidx:
+            zones = zone_alphabet[zi]
+            zr = zones.astype("int16").reshape(shape)
+            mean = np.full((T, 2), np.nan)
+            cnt = np.zeros((T, 2), dtype=np.int64)
+            for z in range(2):
+                m = zones == z
+                c = valid[:, m].sum(axis=1)
+                sm = np.where(valid[:, m], values[:, m], 0).sum(axis=1)       # exact: |values| <= 2^40, four cells
+                with np.errstate(all="ignore"):
+                    mean[:, z] = np.where(c > 0, sm / np.maximum(c, 1), np.nan)
+                cnt[:, z] = c
+            for out_dtype in ("float32", "float64"):
+                key_fn = lambda t: {"value_dtype": dt, "zones": zones.tolist(), "values": values[t].tolist(), "dtype": out_dtype}
+                case_fn = lambda t: {"kind": "vdt"}
+                try:
+                    res = zm.do_mean(pixels, zr, 2, nd, ZND, getattr(np, out_dtype))
+                except Exception as e:
+                    ctx.violation(sub, key_fn(0), case_fn(0), f"do_mean on a {dt} raster raised {type(e).__name__}: {e}")
+                    continue
+                check_result(res, mean, cnt, out_dtype, ctx, sub, key_fn, case_fn)
+                ctx.count(sub, evaluations=T, states=T, traces_validated_against_impl=T, nontrivial=T)
+    ctx.sample(sub, {"dtypes": list(fams), "raster": "2x2", "zones": "all assignments over {0, 1, zone-nodata}", "values": "all words over 4 letters spanning the dtype"})
+
+
+def joint_zones(ctx):
+    """Several zonal means of ONE lazy cube over different zone rasters (same shape, dtype, ids and fill value),
+    evaluated in one graph - dask.compute(a, b), one Dataset - must each be the mean over their own zones."""
+    import dask
+    import pandas as pd
+    import xarray as xr
+    sub = "joint_zones"
+    P, shape = 4, (2, 2)
+    vals_alphabet = [ND, 7, -3]
+    vidx = sse.word_indices(len(vals_alphabet), P)
+    values = np.asarray(vals_alphabet, dtype=np.float64)[vidx]
+    T = values.shape[0]
+    time = pd.date_range("2000-01-01", periods=T, freq="D")
+    rasters = [np.array(z) for z in ([0, 0, 1, 1], [0, 1, 0, 1], [1, 1, 1, ZND], [2, 0, ZND, 1], [0, 0, 0, 0])]
+    refs = [reference(values, z, 3, False) for z in rasters]
+    zdas = [xr.DataArray(z.astype("int16").reshape(shape), dims=("y", "x"), attrs={"nodata": ZND}) for z in rasters]
+    n = 0
+    for chunks in ({"time": 7, "y": -1, "x": -1}, {"time": -1, "y": -1, "x": -1}):
+        da = xr.DataArray(values.astype("int16").reshape((T,) + shape), dims=("time", "y", "x"), coords={"time": time}, attrs={"nodata": ND}, name="v").chunk(chunks)
+        for kw in ({}, {"name": "zm"}, {"name": "zm", "dtype": "float64"}):
+            out_dtype = kw.get("dtype", "float32")
+            lazies = [da.hdc.zonal.mean(z, [10, 20, 30], **kw) for z in zdas]
+            for how in ("dask.compute", "Dataset"):
+                if how == "dask.compute":
+                    res = dask.compute(*lazies)
+                else:
+                    ds = xr.Dataset({f"r{i}": r for i, r in enumerate(lazies)}).compute()
+                    res = [ds[f"r{i}"] for i in range(len(lazies))]
+                for i, r in enumerate(res):
+                    n += 1
+                    key_fn = lambda t: {"zones": rasters[i].tolist(), "values": values[t].tolist(), "kwargs": {k: str(v) for k, v in kw.items()}, "how": how, "position": i}
+                    check_result(np.asarray(r.values), refs[i][0], refs[i][1], out_dtype, ctx, sub, key_fn, lambda t: {"kind": "joint_zones"})
+    ctx.count(sub, evaluations=n * T, states=n, traces_validated_against_impl=n, nontrivial=n * T)
+    ctx.sample(sub, {"zone_rasters": [z.tolist() for z in rasters], "evaluation": ["dask.compute(*results)", "one Dataset"], "names": [None, "zm"]})
+
+
 def attr_histories(ctx):
     """zonal.mean on long-lived objects whose nodata attributes (of the value cube, and of the zone raster) are
     edited in place between calls."""
@@ -303,7 +384,9 @@ def run(ctx):
     large_zones(ctx)
     many_zones_and_perms(ctx)
     zone_dtypes(ctx)
+    value_dtypes(ctx)
     accessor(ctx)
+    joint_zones(ctx)
     attr_histories(ctx)
 
 
@@ -323,6 +406,10 @@ def replay(sub, case, p):
         large_zones(p)
     elif case["kind"] == "zdt":
         zone_dtypes(p)
+    elif case["kind"] == "joint_zones":
+        joint_zones(p)
+    elif case["kind"] == "vdt":
+        value_dtypes(p)
     elif case["kind"] == "attr_history":
         attr_histories(p)
     elif case["kind"] == "perm":
